@@ -59,7 +59,12 @@ Theorem C17H_fallback : forall W d, typing_hints W d = None ->
   get_type_hints tbl W d false = [] /\ get_type_hints tbl W d true = hints_from_signature tbl W d.
 Proof. intros W d. exact (fallback tbl W d). Qed.
 
-(* typed_dict_signature: a key has a default exactly when it is not in __required_keys__ -- inside the guard *)
+(* typed_dict_signature (as repaired): a key has a default exactly when it is not in __required_keys__ -- every class,
+   no guard; and, whenever __required_keys__ is what the TypedDict metaclass model makes of the parts (any mix of
+   totalities), exactly when the parts do not require it *)
+Theorem C17H_td_signature_required : forall W d p,
+  In p (typed_dict_signature W d) -> p_default p = negb (memS (p_name p) (c_required d)).
+Proof. intros W d p. exact (td_signature_required W d p). Qed.
 Theorem C17H_td_signature_defaults : forall W d p,
   td_sig_guard W d = true -> In p (typed_dict_signature W d) ->
   p_default p = negb (memS (p_name p) (td_required (c_parts d))).
@@ -87,7 +92,7 @@ Definition tfloat : hint := HTy (IClass c_float).
 Definition kl (m : string) (anns : list (string * ann)) (dc : bool) (vals : list string) (init : option (list param)) : klass :=
   {| k_module := m; k_ann := anns; k_dc := dc; k_kwonly := false; k_values := vals; k_init := init; k_nt := NtNone |}.
 Definition mk (c : cls) (fl : flavour) (mro : list klass) : cdesc :=
-  {| c_cls := c; c_flavour := fl; c_mro := mro; c_fields := []; c_total := true; c_parts := []; c_attrs := [];
+  {| c_cls := c; c_flavour := fl; c_mro := mro; c_fields := []; c_total := true; c_parts := []; c_required := []; c_attrs := [];
      c_slots := None; c_members := []; c_sigless := false |}.
 Definition par (n : string) (k : pkind) (a : ann) (dfl : bool) : param :=
   {| p_name := n; p_kind := k; p_ann := a; p_default := dfl |}.
@@ -117,12 +122,12 @@ Definition exNT : cdesc :=
      c_mro := [kl "a" [] false [] None;
                {| k_module := "a"; k_ann := [("a", AObj tint); ("b", AObj (HTy (IForwardRef "Thing" None)))]; k_dc := false; k_kwonly := false;
                   k_values := ["b"]; k_init := None; k_nt := NtTyping |}];
-     c_fields := ["a"; "b"]; c_total := true; c_parts := []; c_attrs := []; c_slots := Some []; c_members := [];
+     c_fields := ["a"; "b"]; c_total := true; c_parts := []; c_required := []; c_attrs := []; c_slots := Some []; c_members := [];
      c_sigless := false |}.
 Definition exNTC : cdesc :=
   {| c_cls := k_UNamedC; c_flavour := FlNamedTuple;
      c_mro := [{| k_module := "a"; k_ann := []; k_dc := false; k_kwonly := false; k_values := []; k_init := None; k_nt := NtColl ["a"; "b"] 1 |}];
-     c_fields := ["a"; "b"]; c_total := true; c_parts := []; c_attrs := []; c_slots := Some []; c_members := [];
+     c_fields := ["a"; "b"]; c_total := true; c_parts := []; c_required := []; c_attrs := []; c_slots := Some []; c_members := [];
      c_sigless := false |}.
 Example C17H_namedtuple_satisfiable :
   field_guard tbl exW exNT = true /\ get_type_hints tbl exW exNT true = [("a", tint); ("b", tint)]
@@ -136,7 +141,7 @@ Proof. vm_compute. repeat split. Qed.
 Definition exTD : cdesc :=
   {| c_cls := k_UTD; c_flavour := FlTypedDict;
      c_mro := [kl "a" [("a", AObj tint); ("b", AObj (HTy (IForwardRef "Thing" (Some "b"))))] false [] None];
-     c_fields := []; c_total := false; c_parts := [(true, ["a"]); (false, ["b"])]; c_attrs := []; c_slots := None;
+     c_fields := []; c_total := false; c_parts := [(true, ["a"]); (false, ["b"])]; c_required := ["a"]; c_attrs := []; c_slots := None;
      c_members := []; c_sigless := false |}.
 Definition exInit : cdesc :=
   mk k_UPlain FlPlain
@@ -152,10 +157,8 @@ Example C17H_typeddict_init_satisfiable :
   /\ get_type_hints tbl exW exInit false = [].
 Proof. vm_compute. repeat split. Qed.
 Example C17H_td_signature_satisfiable :
-  let d := {| c_cls := k_UTD; c_flavour := FlTypedDict; c_mro := [kl "a" [("a", AObj tint); ("b", AObj tstr)] false [] None];
-              c_fields := []; c_total := false; c_parts := [(false, ["a"]); (false, ["b"])]; c_attrs := []; c_slots := None;
-              c_members := []; c_sigless := false |} in
-  td_sig_guard exW d = true /\ map p_default (typed_dict_signature exW d) = [true; true].
+  td_sig_guard exW exTD = true /\ map p_default (typed_dict_signature exW exTD) = [false; true]
+  /\ map p_default (typed_dict_signature_pinned exW exTD) = [true; true].
 Proof. vm_compute. repeat split. Qed.
 Example C17H_tuple_satisfiable :
   ann_hints tbl (IClassSub c_tuple [IClass c_int; IClass c_str]) true = [("arg0", tint); ("arg1", tstr)]
@@ -196,7 +199,7 @@ Definition wNtAdd : cdesc :=
      c_mro := [kl "m" [("c", AObj tint)] false ["c"] None;
                {| k_module := "m"; k_ann := [("a", AObj tint); ("b", AObj tstr)]; k_dc := false; k_kwonly := false; k_values := [];
                   k_init := None; k_nt := NtTyping |}];
-     c_fields := ["a"; "b"]; c_total := true; c_parts := []; c_attrs := []; c_slots := None; c_members := [];
+     c_fields := ["a"; "b"]; c_total := true; c_parts := []; c_required := []; c_attrs := []; c_slots := None; c_members := [];
      c_sigless := false |}.
 Theorem C17H_refuted_namedtuple_extra_annotation : exists d fs,
   c_flavour d = FlNamedTuple /\ spec_fields [] d = Some fs /\ get_type_hints tbl [] d true <> fs.
@@ -208,14 +211,22 @@ Definition wAttr : cdesc :=
 Theorem C17H_refuted_plain_attribute_annotation : exists d fs,
   c_flavour d = FlPlain /\ spec_fields [] d = Some fs /\ get_type_hints tbl [] d true <> fs.
 Proof. exists wAttr, [("a", tint)]. split; [reflexivity|]. split; vm_compute; [reflexivity | discriminate]. Qed.
-(* (6) the fallback evaluates an INHERITED string annotation in the module of the subclass: class B(A) of module "b",
-   A of module "a" declares a: "Thing"; one name of B is not bound yet -> typing raises -> the signature path turns
-   "Thing" into ForwardRef("Thing", module="b"), which is str there, where A's own module says int *)
+(* (6) REPAIRED (proposed_fixes/C17-fallback-annotation-module): class B(A) of module "b", A of module "a" declares
+   a: "Thing"; one name of B is not bound yet -> typing raises -> the signature path.  The reference built for the
+   inherited field names the module that DECLARES it; the pinned code (module = obj.__module__) said "b", where Thing is
+   str, although A's own module says int *)
 Definition wW : world := [(("a", "Thing"), tint); (("b", "Thing"), tstr)].
 Definition wLate : cdesc :=
   mk 0%N FlDataclass [kl "b" [("n", AStr "Later")] true ["n"] None; kl "a" [("a", AStr "Thing")] true [] None].
-Theorem C17H_refuted_fallback_wrong_module : exists W d h,
-  typing_hints W d = None /\ In ("a", h) (get_type_hints tbl W d true)
+Example C17H_fallback_declaring_module :
+  typing_hints wW wLate = None
+  /\ get_type_hints tbl wW wLate true
+     = [("a", HTy (IForwardRef "Thing" (Some "a"))); ("n", HTy (IForwardRef "Later" (Some "b")))]
+  /\ resolve_hint wW (HTy (IForwardRef "Thing" (Some "a"))) = tint
+  /\ eval_ann wW "a" (AStr "Thing") = Some tint.
+Proof. vm_compute. repeat split. Qed.
+Theorem C17H_refuted_pinned_fallback_module : exists W d h,
+  typing_hints W d = None /\ In ("a", h) (hints_from_signature_pinned tbl W d)
   /\ resolve_hint W h = tstr /\ eval_ann W "a" (AStr "Thing") = Some tint.
 Proof.
   exists wW, wLate, (HTy (IForwardRef "Thing" (Some "b"))).
@@ -229,23 +240,26 @@ Theorem C17H_refuted_fallback_drops_members : exists d,
   istypeddict tbl (self_ity d) = true /\ names_of (k_ann (hd (kl "" [] false [] None) (c_mro d))) = ["a"; "b"]
   /\ get_type_hints tbl [] d true = [] /\ signature tbl [] d = Some [].
 Proof. exists wTdLate. repeat split; vm_compute; reflexivity. Qed.
-(* (8) typed_dict_signature takes the default of EVERY key from the __total__ of the class itself: an inherited
-   required key of a total=False subclass gets a default *)
+(* (8) REPAIRED (proposed_fixes/C17-typeddict-signature-defaults).  The pinned code took the default of EVERY key from
+   the __total__ of the class itself: an inherited required key of a total=False subclass got a default *)
 Definition wTdMixed : cdesc :=
   {| c_cls := 0%N; c_flavour := FlTypedDict; c_mro := [kl "m" [("a", AObj tint); ("b", AObj tint)] false [] None];
-     c_fields := []; c_total := false; c_parts := [(true, ["a"]); (false, ["b"])]; c_attrs := []; c_slots := None;
+     c_fields := []; c_total := false; c_parts := [(true, ["a"]); (false, ["b"])]; c_required := ["a"]; c_attrs := []; c_slots := None;
      c_members := []; c_sigless := false |}.
-Theorem C17H_refuted_td_totality : exists d p,
-  In p (typed_dict_signature [] d) /\ memS (p_name p) (td_required (c_parts d)) = true /\ p_default p = true.
+Theorem C17H_refuted_pinned_td_totality : exists d p,
+  In p (typed_dict_signature_pinned [] d) /\ memS (p_name p) (c_required d) = true /\ p_default p = true.
 Proof. exists wTdMixed, (par "a" KKwOnly (AObj tint) true). split; [vm_compute; left; reflexivity|]. split; vm_compute; reflexivity. Qed.
-(* (9) ... and getattr(cls, key, default): a key named like a dict method has that method as its default *)
+(* (9) ... and getattr(cls, key, default): a key named like a dict method had that method as its default *)
 Definition wTdKeys : cdesc :=
   {| c_cls := 0%N; c_flavour := FlTypedDict; c_mro := [kl "m" [("a", AObj tint); ("keys", AObj tstr)] false [] None];
-     c_fields := []; c_total := true; c_parts := [(true, ["a"; "keys"])]; c_attrs := ["keys"]; c_slots := None;
+     c_fields := []; c_total := true; c_parts := [(true, ["a"; "keys"])]; c_required := ["a"; "keys"]; c_attrs := ["keys"]; c_slots := None;
      c_members := []; c_sigless := false |}.
-Theorem C17H_refuted_td_dict_attribute : exists d p,
-  In p (typed_dict_signature [] d) /\ memS (p_name p) (td_required (c_parts d)) = true /\ p_default p = true.
+Theorem C17H_refuted_pinned_td_dict_attribute : exists d p,
+  In p (typed_dict_signature_pinned [] d) /\ memS (p_name p) (c_required d) = true /\ p_default p = true.
 Proof. exists wTdKeys, (par "keys" KKwOnly (AObj tstr) true). split; [vm_compute; right; left; reflexivity|]. split; vm_compute; reflexivity. Qed.
+Example C17H_td_signature_repaired :
+  map p_default (typed_dict_signature [] wTdMixed) = [false; true] /\ map p_default (typed_dict_signature [] wTdKeys) = [false; false].
+Proof. vm_compute. split; reflexivity. Qed.
 (* (10) KW_ONLY is filtered BEFORE the fallback: a parameter annotated with it comes back as a hint *)
 Definition wKwSig : cdesc :=
   mk 0%N FlPlain [kl "m" [] false [] (Some [par "a" KPosOrKw (AObj tint) false; par "m" KPosOrKw (AObj HKwOnly) true])].
@@ -265,6 +279,7 @@ Print Assumptions C17H_kw_only_dropped.
 Print Assumptions C17H_classvar_kept.
 Print Assumptions C17H_typing_path.
 Print Assumptions C17H_fallback.
+Print Assumptions C17H_td_signature_required.
 Print Assumptions C17H_td_signature_defaults.
 Print Assumptions C17H_tuple_members.
 Print Assumptions C17H_erase_fields.
@@ -273,9 +288,9 @@ Print Assumptions C17H_refuted_undecorated_annotation.
 Print Assumptions C17H_refuted_initvar_member.
 Print Assumptions C17H_refuted_namedtuple_extra_annotation.
 Print Assumptions C17H_refuted_plain_attribute_annotation.
-Print Assumptions C17H_refuted_fallback_wrong_module.
+Print Assumptions C17H_refuted_pinned_fallback_module.
 Print Assumptions C17H_refuted_fallback_drops_members.
-Print Assumptions C17H_refuted_td_totality.
-Print Assumptions C17H_refuted_td_dict_attribute.
+Print Assumptions C17H_refuted_pinned_td_totality.
+Print Assumptions C17H_refuted_pinned_td_dict_attribute.
 Print Assumptions C17H_refuted_kw_only_in_signature.
 Print Assumptions C17H_refuted_full.
